@@ -70,6 +70,7 @@ type TxMeta struct {
 	Issuer   *types.Address // check issuer for redeem
 	Check    *IssuedCheck   // the check a redeem op presents
 	ProofOK  bool           // redeem: proof made with the check's password for the sender's own address
+	SigMode  int            // signature fault actually applied (single-signature transactions only)
 	Code     uint32         // result code of this delivery (filled after DeliverTx)
 	FirstCode uint32        // for redeliveries: result code of the first delivery of these bytes
 	OrigKind string         // for redeliveries: kind of the original transaction
@@ -874,6 +875,7 @@ func (v *View) Resolve(op Op) *TxMeta {
 		}
 	} else {
 		key := signKeys[0]
+		m.SigMode = op.SM
 		switch op.SM {
 		case 4: // signed by another key: then the "sender" is that key's account
 			key = Acct(mod(int64(op.A)+1, v.NAcct)).Priv
